@@ -126,6 +126,14 @@ class ClassInfo(object):
     def fq(self):
         return "%s:%s" % (self.module.name, self.name)
 
+    def site(self, node=None):
+        return "%s:%d %s" % (self.module.relpath, getattr(node, "lineno", None) or self.node.lineno, self.name)
+
+    def site_of(self, method):
+        """report position: the named method if the class (still) has it, otherwise the class"""
+        f = self.lookup(method)
+        return f.site() if f is not None else self.site()
+
     def bases(self):
         out = []
         for b in self.node.bases:
@@ -293,7 +301,7 @@ class Program(object):
                 targets = st.targets if isinstance(st, ast.Assign) else [st.target]
                 for t in targets:
                     for n in ast.walk(t):
-                        if isinstance(n, ast.Name):
+                        if isinstance(n, ast.Name) and isinstance(n.ctx, ast.Store):
                             m.bindings[n.id] = Binding("assign", st, m)
             elif isinstance(st, (ast.If, ast.Try)):
                 # conditional definitions at module level (try/except import
